@@ -423,7 +423,7 @@ func (t *Term) SMT(ref func(*Term) string) string {
 		}
 		return fmt.Sprintf("#b%0*b", t.W, t.Val)
 	case OpVar:
-		return "|" + t.Name + "|"
+		return "|v." + t.Name + "|"
 	case OpZExt:
 		return fmt.Sprintf("((_ zero_extend %d) %s)", t.W-t.Args[0].W, ref(t.Args[0]))
 	case OpSExt:
